@@ -138,3 +138,74 @@ Definition get_arguments (s : tsig) : list argspec :=
   reorder pos (build_args (s_deco s) pos (s_params s)
                           (map p_name (s_params s) ++
                            map (fun p => translate_underscores (p_name p)) (s_params s))).
+
+(** ** help=
+
+    [Task.__init__] copies the [help] dict; [arg_opts] consumes it:
+      for possibility in name, original_name:
+          if possibility in self.help: opts["help"] = self.help.pop(possibility); break
+    ([name] is the dashed spelling when the parameter has underscores), and
+    [get_arguments] raises ValueError when keys are left over (the
+    [ignore_unknown_help] escape is not modelled: it is off by default). *)
+Fixpoint hpop (k : string) (h : list (string * string)) : option (string * list (string * string)) :=
+  match h with
+  | [] => None
+  | (k', v) :: h' =>
+      if String.eqb k k' then Some (v, h')
+      else match hpop k h' with
+           | Some (t, r) => Some (t, (k', v) :: r)
+           | None => None
+           end
+  end.
+
+Definition help_step (p : param) (h : list (string * string)) : option string * list (string * string) :=
+  let name := p_name p in
+  let dname := if contains_char us name then translate_underscores name else name in
+  match hpop dname h with
+  | Some (t, h') => (Some t, h')
+  | None => match hpop name h with
+            | Some (t, h') => (Some t, h')
+            | None => (None, h)
+            end
+  end.
+
+Fixpoint build_help (ps : list param) (h : list (string * string))
+  : list (option string) * list (string * string) :=
+  match ps with
+  | [] => ([], h)
+  | p :: ps' =>
+      let (t, h') := help_step p h in
+      let (ts, rest) := build_help ps' h' in
+      (t :: ts, rest)
+  end.
+
+(** the positional reordering of [get_arguments], carrying each Argument's help *)
+Fixpoint extract_h (nm : string) (l : list (argspec * option string))
+  : option ((argspec * option string) * list (argspec * option string)) :=
+  match l with
+  | [] => None
+  | a :: l' =>
+      if String.eqb (arg_name (fst a)) nm then Some (a, l')
+      else match extract_h nm l' with
+           | Some (x, r) => Some (x, a :: r)
+           | None => None
+           end
+  end.
+
+Definition reorder_h (positional : list string) (args : list (argspec * option string))
+  : list (argspec * option string) :=
+  fold_left (fun acc nm => match extract_h nm acc with Some (x, r) => x :: r | None => acc end)
+            (rev positional) args.
+
+(** [Task(body, help=h, ...).get_arguments()]: ValueError, or per Argument (in
+    the order returned) its python-friendly name and its help text *)
+Definition get_help (s : tsig) (h : list (string * string)) : result (list (string * option string)) :=
+  let pos := fill_implicit_positionals s in
+  let args := build_args (s_deco s) pos (s_params s)
+                         (map p_name (s_params s) ++
+                          map (fun p => translate_underscores (p_name p)) (s_params s)) in
+  let (ts, rest) := build_help (s_params s) h in
+  match rest with
+  | _ :: _ => Err EValue
+  | [] => Ok (map (fun ah => (arg_name (fst ah), snd ah)) (reorder_h pos (combine args ts)))
+  end.
